@@ -30,7 +30,10 @@ def one(patch):
         shutil.rmtree(tmp, ignore_errors=True)
 
 
-patches = sorted(p for p in glob.glob(os.path.join(HERE, "seeded", "benign", "*", "patch.diff"))
+sub = ("benign",)
+if pref.startswith("seed:"):   # sweep regressions instead: seed:C02-agent4, seed:C (all), ...
+    sub, pref = (), pref[5:]
+patches = sorted(p for p in glob.glob(os.path.join(HERE, "seeded", *sub, "*", "patch.diff"))
                  if os.path.basename(os.path.dirname(p)).startswith(pref))
 silent = 0
 with ThreadPoolExecutor(max_workers=6) as ex:
